@@ -6,6 +6,9 @@ understands (see harness/session/runner.py:make_tree for the matching scratch co
 import runlib as R
 
 LOCAL_OK = [b'alice@example.org', b'bob@example.org', b'list@example.org', b'any@x.sub.example.org']
+# address literals: the local IP of the v4 / v6 harness configuration (accepted, written to the envelope with localiphost)
+# and a foreign one (no such user)
+LITERALS = [b'alice@[192.0.2.2]', b'bob@[IPv6:2001:db8::2]', b'x@[192.0.2.77]', b'x@[IPv6:2001:db8::77]']
 LOCAL_NO = [b'nobody@example.org', b'carol@example.org']
 REMOTE = [b'x@example.net', b'y@example.com', b'z@mail.example.net']
 REMOTE_BAD = [b'x@nomx.example.net', b'x@nullmx.example.net']
@@ -14,7 +17,8 @@ SENDERS = [b'a@example.net', b'b@example.com', b'alice@example.org', b'']
 
 
 def rcpt(rng, kind=None):
-    kind = kind or rng.choice(['ok', 'ok', 'ok', 'no', 'remote', 'remote', 'rbad', 'syntax', 'more', 'nobracket'])
+    kind = kind or rng.choice(['ok', 'ok', 'ok', 'no', 'remote', 'remote', 'rbad', 'syntax', 'more', 'nobracket', 'literal'])
+    if kind == 'literal': return b'RCPT TO:<' + rng.choice(LITERALS) + b'>\r\n'
     if kind == 'ok': return b'RCPT TO:<' + rng.choice(LOCAL_OK) + b'>\r\n'
     if kind == 'no': return b'RCPT TO:<' + rng.choice(LOCAL_NO) + b'>\r\n'
     if kind == 'remote': return b'RCPT TO:<' + rng.choice(REMOTE) + b'>\r\n'
